@@ -23,6 +23,10 @@ out = ["# Seeded property-breaking changes", "",
 for r in rows:
     out.append("| " + " | ".join(str(x) for x in r) + " |")
 out.append("")
+out.append("Each change was confirmed and detected against the /repo HEAD of the day it was collected (the repairs of genuine defects made "
+           "since then touch some of the same lines: `git apply --check` of an older patch.diff on today's HEAD can fail; patches were "
+           "rebased - same edit, new context - when a repair landed in the session that was using them).")
+out.append("")
 out.append(f"{len(rows)} changes: {sum(1 for r in rows if r[4] == 'yes')} detected, {sum(1 for r in rows if r[4] == 'obsolete')} obsolete "
            f"(neutralised by a repair of a genuine defect), {sum(1 for r in rows if r[4] == 'NO')} missed.")
 (VERIF / "seeded" / "INDEX.md").write_text("\n".join(out) + "\n")
